@@ -872,6 +872,7 @@ def record_trace(seed, mode):
     """one recorded execution: {'inp', 'out'} for TLC plus the float payload; or ('skip', why)"""
     rng = np.random.default_rng(seed)
     inp = None
+    mode, _, variant = mode.partition(':')      # 'cvmany:str' = many repetitions, 1-character string labels
     for _ in range(50):
         inp = gen_input(rng, mode)
         if inp is not None:
@@ -882,7 +883,7 @@ def record_trace(seed, mode):
     fl['dtype'] = ['float64', 'int64'][rng.integers(2)]
     fl['wrap'] = False
     if mode == 'cvmany':
-        fl['lab'] = ['str', 'int', 'strmix', 'intneg'][seed % 4]
+        fl['lab'] = variant or 'str'
         fl['class'] = 'cvmany'
     try:
         got = project(call_impl(inp, fl))
